@@ -637,7 +637,7 @@ def main(tier):
                        "Appendix B.1.2 is switched off in these runs (C15 covers it); tampered "
                        "variants are delivered before the genuine datagram to one recipient"]
     exe = build.ensure_world("asan")
-    total, tamper_every = (240, 10) if tier == "quick" else (6000, 8)
+    total, tamper_every = (640, 10) if tier == "quick" else (6000, 8)
     chunk = 8
     jobs = [(list(range(i, min(total, i + chunk))), exe, tamper_every)
             for i in range(0, total, chunk)]
